@@ -70,12 +70,12 @@ def _deliver(node, chunks, nmsgs):
 
 def segmented(cuts: List[int]) -> bool:
     """
-    pre: len(cuts) == P["ncuts"]
+    pre: len(cuts) == P["ncuts"] and all(0 <= c <= P["total"] for c in cuts)
     post: _
     """
     kinds = P["kinds"]
     ids = [0x10000 + 17 * i for i in range(len(kinds))]
-    cuts = sorted(concrete(c) % (P["total"] + 1) for c in cuts)       # any cut positions, realised one path each
+    cuts = sorted(concrete(c) for c in cuts)       # any cut positions, realised one path each
     with untraced():
         msgs = _stream(kinds, ids)
         wire = b"".join(msgs)
@@ -102,9 +102,9 @@ def segmented(cuts: List[int]) -> bool:
 
 
 def bytewise() -> dict:
-    """one byte per read (native enumeration of a single extreme segmentation, both roles)"""
+    """regular chunkings: k bytes per read for k = 1..40 (native enumeration, both roles)"""
     bad = []
-    for role in ("CLIENT", "SERVER"):
+    for role, k in [(r, k) for r in ("CLIENT", "SERVER") for k in range(1, 41)]:
         kinds = ["req", "dwr", "ans", "req"]
         ids = [0x20000 + i for i in range(4)]
         msgs = _stream(kinds, ids)
@@ -113,16 +113,16 @@ def bytewise() -> dict:
         node.force_state("Open")
         node.assoc.state_is_active = True
         node.transport.events = [("busy", 1)]
-        res = _deliver(node, [wire[i:i + 1] for i in range(len(wire))], 1)
+        res = _deliver(node, [wire[i:i + k] for i in range(0, len(wire), k)], 2)
         if isinstance(res, str):
-            bad.append(f"{role}: {res}")
+            bad.append(f"{role} {k} bytes/read: {res}")
             continue
         delivered, answers = res
-        if delivered != [m for k, m in zip(kinds, msgs) if k != "dwr"] or answers != [(ids[1], 3001)]:
-            bad.append(f"{role}: delivered {len(delivered)} of 3, answers {answers}")
+        if delivered != [m for kd, m in zip(kinds, msgs) if kd != "dwr"] or answers != [(ids[1], 3001)]:
+            bad.append(f"{role} {k} bytes/read: delivered {len(delivered)} of 3, answers {answers}")
     if bad:
-        return {"verdict": "cex", "detail": "; ".join(bad), "call": "one byte per read", "reproduced": True, "replay": {"verdict": "fails", "problems": bad}}
-    return {"verdict": "proved", "obligation": "4 messages delivered one byte per read, both roles (enumeration)"}
+        return {"verdict": "cex", "detail": "; ".join(bad[:4]), "call": "k bytes per read", "reproduced": True, "replay": {"verdict": "fails", "problems": bad}}
+    return {"verdict": "proved", "obligation": "4 messages delivered k bytes per read, k = 1..40, both roles (enumeration)"}
 
 
 def ids_symbolic(ids: List[int], cut: int) -> bool:
@@ -182,8 +182,18 @@ def interleaved(sched: List[bool]) -> bool:
             for ch in chunks[1:]:
                 yield
                 node.sock.inbox.append(ch)
+        def drain():
+            # reader/worker pair only: the decoded messages as they enter the association's inbound queue
+            for _ in range(len(kinds)):
+                m = yield from node.assoc._recv_messages.get()
+                got.append(m.dump())
         s = CS.Sched(sched, max_preempt=P.get("maxp"))
-        s.spawn("A", consumer())
+        th = P.get("threads", "ARWS")
+        if "A" in th:
+            s.spawn("A", consumer())
+        else:
+            want = list(msgs)
+            s.spawn("D", drain())
         if P.get("network"):
             node.sock.inbox.append(chunks[0])
             s.spawn("N", network(), daemon=True)
@@ -191,7 +201,8 @@ def interleaved(sched: List[bool]) -> bool:
             node.sock.inbox.extend(chunks)
         s.spawn("R", node.reader(), daemon=True)
         s.spawn("W", node.worker(), daemon=True)
-        s.spawn("S", node.machine(), daemon=True)
+        if "S" in th:
+            s.spawn("S", node.machine(), daemon=True)
         try:
             s.run()
         except CS.Prune:
@@ -213,10 +224,8 @@ def queries(tier, seed):
     t = 150 if tier == "quick" else 1800
     qs = [Q("native/bytewise", "bytewise", engine="py", cto=120, what="4 messages, one byte per read, both roles")]
     for role in ("CLIENT", "SERVER"):
-        for kinds, ncuts in (((["req", "dwr", "req"], 1), (["req", "ans"], 2)) if tier == "quick" else
-                             ((["req", "dwr", "req"], 1), (["req", "ans"], 2), (["req", "dwr", "ans", "req"], 2), (["dwr", "req"], 3))):
-            if tier == "quick" and role == "SERVER" and ncuts == 2:
-                continue
+        for kinds, ncuts in (((["req", "dwr", "req"], 1), (["ans", "dwr"], 1)) if tier == "quick" else
+                             ((["req", "dwr", "req"], 1), (["ans", "dwr"], 1), (["req", "ans"], 2), (["dwr", "ans"], 2), (["dwr"], 3))):
             total = len(b"".join(_stream(kinds, [0x10000 + 17 * i for i in range(len(kinds))])))
             qs.append(Q(f"segmented/{role}/{'-'.join(kinds)}/cuts{ncuts}", "segmented", {"role": role, "kinds": kinds, "ncuts": ncuts, "total": total}, cto=t, pto=t,
                         what=f"{role}: {kinds} ({total} bytes) cut at {ncuts} arbitrary position(s): every segmentation"))
@@ -226,10 +235,29 @@ def queries(tier, seed):
                 what="reader / receive worker / state machine / consumer as coroutines, 2 requests in 2 message-aligned reads: every schedule with <= 1 preemption"))
     qs.append(Q("interleaved/split/P1", "interleaved", {"role": "CLIENT", "kinds": ["req", "req"], "cuts": [10, L1 + 30], "K": 48, "maxp": 1}, cto=t, pto=t,
                 what="same, reads cut inside the first header and inside the second message: every schedule with <= 1 preemption"))
+    LN = ["read", "recv_message_from_queue"]
+    qs.append(Q("interleaved/arrival/reader-worker/lines/P1", "interleaved",
+                {"role": "CLIENT", "kinds": ["req", "req"], "cuts": [L1], "K": 64, "maxp": 1, "network": True, "threads": "RW", "lines": LN}, cto=max(t, 400), pto=max(t, 400),
+                what="reader + receive worker + a network thread delivering the 2nd segment at an arbitrary moment; preemption point before EVERY statement of "
+                     "read() and recv_message_from_queue(): every schedule with <= 1 preemption; oracle: the association's inbound queue"))
+    if tier != "quick":
+        qs.append(Q("interleaved/arrival/reader-worker/lines/P2", "interleaved",
+                    {"role": "CLIENT", "kinds": ["req", "dwr"], "cuts": [40], "K": 64, "maxp": 2, "network": True, "threads": "RW", "lines": LN}, cto=t, pto=t,
+                    what="same with a cut inside the first message and <= 2 preemptions (~54 000 schedules)"))
+        qs.append(Q("interleaved/arrival/all/lines/P1", "interleaved",
+                    {"role": "CLIENT", "kinds": ["req", "req"], "cuts": [L1], "K": 64, "maxp": 1, "network": True, "lines": True}, cto=t, pto=t,
+                    what="all four threads + network thread, statement-level preemption in the transport/association methods touching shared state, <= 1 preemption (~19 000 schedules)"))
+        qs.append(Q("interleaved/aligned/P2", "interleaved", {"role": "CLIENT", "kinds": ["req", "req"], "cuts": [L1], "K": 64, "maxp": 2}, cto=t, pto=t,
+                    what="four threads at synchronisation-operation granularity, <= 2 preemptions (~5 500 schedules)"))
     return qs
 
 
-BOUNDS = ["n <= 3 (quick) / 4 messages; 1-2 (quick) / 3 arbitrary cut positions, i.e. every segmentation into <= 3 / 4 reads; one byte per read as a native run",
-          "schedule for (i): reader, worker, state machine and consumer run to quiescence after each read (the interleaving dimension is (ii))"]
-OUTSIDE = ["more than 4 messages / 4 reads per query", "SCTP classes (pysctp absent)", "real kernel sockets and OS scheduling"]
+BOUNDS = ["(i) streams of 2-3 messages with 1 arbitrary cut (quick) / 2 cuts on two-message streams and 3 cuts on one message (thorough): every segmentation into that "
+          "many reads; regular chunkings of 1..40 bytes per read over a 4-message stream as a native run; identifiers symbolic with one cut in the first 40 bytes",
+          "(i) schedule: reader, worker, state machine and consumer run to quiescence after each read (the interleaving dimension is (ii))",
+          "(ii) 2 messages in 2-3 reads; threads reader/worker/state machine/consumer at synchronisation-operation granularity with <= 1 (quick) / 2 preemptions; "
+          "reader + worker + network-arrival thread with a preemption point before every statement of read() and recv_message_from_queue(), <= 1 (quick) / 2 preemptions; "
+          "all threads + arrival at statement level with <= 1 preemption (thorough); K = 48-64 boolean scheduling decisions (longer schedules are pruned, counted)"]
+OUTSIDE = ["more than 4 messages / 4 reads per query", "more preemptions than stated; preemption inside a statement (bytecode granularity)", "state-machine idle ticks are not "
+           "scheduled freely (CoTime: a tick pause resumes when the node has work or at quiescence)", "SCTP classes (pysctp absent)", "real kernel sockets and OS scheduling"]
 ASSUMPTIONS = ["stand-in socket/selector (vf/standin.py)", "reference encoder for the peer's messages"]
